@@ -1,4 +1,5 @@
 import Bee2V.C01.Model.Block
+import Bee2V.C01.Lemmas.Bytes
 namespace Bee2V.C01
 
 theorem u32_xor_cancel (x y : UInt32) : x ^^^ y ^^^ y = x := by
@@ -37,7 +38,7 @@ theorem R_inv' (g : GFun) (sk sk' : Nat → UInt32) (hsk : ∀ j, j ≤ 6 → sk
 /-- The macro `D` undoes the macro `E` whenever each D-round undoes the matching E-round in the
 conjugated register order. -/
 theorem decRounds_encRounds (rfE rfD : Nat → UInt32 → UInt32 → UInt32 → UInt32 → Regs)
-    (hinv : ∀ i a b c d a' b' c' d', rfE i a b c d = (a', b', c', d') → rfD i d' c' b' a' = (d, c, b, a))
+    (hinv : ∀ i a b c d a' b' c' d', 1 ≤ i → rfE i a b c d = (a', b', c', d') → rfD i d' c' b' a' = (d, c, b, a))
     (a b c d : UInt32) :
     decRounds rfD (encRounds rfE a b c d).1 (encRounds rfE a b c d).2.1 (encRounds rfE a b c d).2.2.1
       (encRounds rfE a b c d).2.2.2 = (a, b, c, d) := by
@@ -58,14 +59,103 @@ theorem decRounds_encRounds (rfE rfD : Nat → UInt32 → UInt32 → UInt32 → 
   simp only []
   rcases h8 : rfE 8 c7 a7 d7 b7 with ⟨c8, a8, d8, b8⟩
   simp only [xorSwap_eq]
-  have i1 := hinv _ _ _ _ _ _ _ _ _ h1
-  have i2 := hinv _ _ _ _ _ _ _ _ _ h2
-  have i3 := hinv _ _ _ _ _ _ _ _ _ h3
-  have i4 := hinv _ _ _ _ _ _ _ _ _ h4
-  have i5 := hinv _ _ _ _ _ _ _ _ _ h5
-  have i6 := hinv _ _ _ _ _ _ _ _ _ h6
-  have i7 := hinv _ _ _ _ _ _ _ _ _ h7
-  have i8 := hinv _ _ _ _ _ _ _ _ _ h8
+  have i1 := hinv _ _ _ _ _ _ _ _ _ (by omega) h1
+  have i2 := hinv _ _ _ _ _ _ _ _ _ (by omega) h2
+  have i3 := hinv _ _ _ _ _ _ _ _ _ (by omega) h3
+  have i4 := hinv _ _ _ _ _ _ _ _ _ (by omega) h4
+  have i5 := hinv _ _ _ _ _ _ _ _ _ (by omega) h5
+  have i6 := hinv _ _ _ _ _ _ _ _ _ (by omega) h6
+  have i7 := hinv _ _ _ _ _ _ _ _ _ (by omega) h7
+  have i8 := hinv _ _ _ _ _ _ _ _ _ (by omega) h8
   simp only [decRounds, i8, i7, i6, i5, i4, i3, i2, i1, xorSwap_eq]
+
+
+/-- the converse composition: `E` undoes `D` -/
+theorem encRounds_decRounds (rfE rfD : Nat → UInt32 → UInt32 → UInt32 → UInt32 → Regs)
+    (hinv : ∀ i a b c d a' b' c' d', 1 ≤ i → rfD i a b c d = (a', b', c', d') → rfE i d' c' b' a' = (d, c, b, a))
+    (a b c d : UInt32) :
+    encRounds rfE (decRounds rfD a b c d).1 (decRounds rfD a b c d).2.1 (decRounds rfD a b c d).2.2.1
+      (decRounds rfD a b c d).2.2.2 = (a, b, c, d) := by
+  unfold decRounds
+  rcases h8 : rfD 8 a b c d with ⟨a8, b8, c8, d8⟩
+  simp only []
+  rcases h7 : rfD 7 c8 a8 d8 b8 with ⟨c7, a7, d7, b7⟩
+  simp only []
+  rcases h6 : rfD 6 d7 c7 b7 a7 with ⟨d6, c6, b6, a6⟩
+  simp only []
+  rcases h5 : rfD 5 b6 d6 a6 c6 with ⟨b5, d5, a5, c5⟩
+  simp only []
+  rcases h4 : rfD 4 a5 b5 c5 d5 with ⟨a4, b4, c4, d4⟩
+  simp only []
+  rcases h3 : rfD 3 c4 a4 d4 b4 with ⟨c3, a3, d3, b3⟩
+  simp only []
+  rcases h2 : rfD 2 d3 c3 b3 a3 with ⟨d2, c2, b2, a2⟩
+  simp only []
+  rcases h1 : rfD 1 b2 d2 a2 c2 with ⟨b1, d1, a1, c1⟩
+  simp only [xorSwap_eq]
+  have i1 := hinv _ _ _ _ _ _ _ _ _ (by omega) h1
+  have i2 := hinv _ _ _ _ _ _ _ _ _ (by omega) h2
+  have i3 := hinv _ _ _ _ _ _ _ _ _ (by omega) h3
+  have i4 := hinv _ _ _ _ _ _ _ _ _ (by omega) h4
+  have i5 := hinv _ _ _ _ _ _ _ _ _ (by omega) h5
+  have i6 := hinv _ _ _ _ _ _ _ _ _ (by omega) h6
+  have i7 := hinv _ _ _ _ _ _ _ _ _ (by omega) h7
+  have i8 := hinv _ _ _ _ _ _ _ _ _ (by omega) h8
+  simp only [encRounds, i8, i7, i6, i5, i4, i3, i2, i1, xorSwap_eq]
+
+theorem subkeyD_eq (K : Array UInt32) (i j : Nat) (hi : 1 ≤ i) (hj : j ≤ 6) : subkeyD K i j = subkeyE K i (6 - j) := by
+  simp only [subkeyD, subkeyE]
+  congr 2
+  omega
+
+theorem subkeyE_eq (K : Array UInt32) (i j : Nat) (hi : 1 ≤ i) (hj : j ≤ 6) : subkeyE K i j = subkeyD K i (6 - j) := by
+  simp only [subkeyD, subkeyE]
+  congr 2
+  omega
+
+/-- `beltBlockDecr3` undoes `beltBlockEncr3` for every key array and every G-blocks -/
+theorem D_E (g : GFun) (K : Array UInt32) (a b c d : UInt32) :
+    D g K (E g K a b c d).1 (E g K a b c d).2.1 (E g K a b c d).2.2.1 (E g K a b c d).2.2.2 = (a, b, c, d) := by
+  apply decRounds_encRounds
+  intro i a b c d a' b' c' d' hi h
+  exact R_inv' g (subkeyE K i) (subkeyD K i) (fun j hj => subkeyD_eq K i j hi hj) _ a b c d a' b' c' d' h
+
+theorem E_D (g : GFun) (K : Array UInt32) (a b c d : UInt32) :
+    E g K (D g K a b c d).1 (D g K a b c d).2.1 (D g K a b c d).2.2.1 (D g K a b c d).2.2.2 = (a, b, c, d) := by
+  apply encRounds_decRounds
+  intro i a b c d a' b' c' d' hi h
+  exact R_inv' g (subkeyD K i) (subkeyE K i) (fun j hj => subkeyE_eq K i j hi hj) _ a b c d a' b' c' d' h
+
+theorem length_blockEncr (key blk : Bytes) (h : blk.length = 16) : (blockEncr key blk).length = 16 := by
+  obtain ⟨w0, w1, w2, w3, hw⟩ := u32From_16 blk h
+  simp only [blockEncr, hw, length_u32To, List.length_cons, List.length_nil]
+
+theorem length_blockDecr (key blk : Bytes) (h : blk.length = 16) : (blockDecr key blk).length = 16 := by
+  obtain ⟨w0, w1, w2, w3, hw⟩ := u32From_16 blk h
+  simp only [blockDecr, hw, length_u32To, List.length_cons, List.length_nil]
+
+theorem blockDecr_blockEncr' (key blk : Bytes) (h : blk.length = 16) : blockDecr key (blockEncr key blk) = blk := by
+  obtain ⟨w0, w1, w2, w3, hw⟩ := u32From_16 blk h
+  have hb := u32To_u32From_16 blk h
+  rw [hw] at hb
+  have hde := D_E beltG (u32From key).toArray w0 w1 w2 w3
+  rcases he : E beltG (u32From key).toArray w0 w1 w2 w3 with ⟨a, b, c, d⟩
+  rw [he] at hde
+  simp only [blockEncr, hw, he, blockDecr, u32From_u32To]
+  simp only [] at hde
+  rw [hde]
+  exact hb
+
+theorem blockEncr_blockDecr' (key blk : Bytes) (h : blk.length = 16) : blockEncr key (blockDecr key blk) = blk := by
+  obtain ⟨w0, w1, w2, w3, hw⟩ := u32From_16 blk h
+  have hb := u32To_u32From_16 blk h
+  rw [hw] at hb
+  have hde := E_D beltG (u32From key).toArray w0 w1 w2 w3
+  rcases he : D beltG (u32From key).toArray w0 w1 w2 w3 with ⟨a, b, c, d⟩
+  rw [he] at hde
+  simp only [blockDecr, hw, he, blockEncr, u32From_u32To]
+  simp only [] at hde
+  rw [hde]
+  exact hb
 
 end Bee2V.C01
